@@ -1,1 +1,857 @@
-From Gnmi Require Import Base.Prelude.
+(** Proofs for C15 over CacheModel.v: counter laws, latest timestamp, and the
+    lockset annotation of the fields shared by the update stream and the
+    periodic refresh. *)
+From Gnmi Require Import Base.Prelude CTree.CTreeModel CTree.CTreeProofs CTree.CTreeTheorems
+  Path.PathModel Cache.CacheModel Cache.MultiCache Cache.C14Proofs.
+From Coq Require Import Lia.
+Local Open Scope Z_scope.
+
+(** * Reading counters *)
+
+(** GetInt with "unset" read as 0 (every counter is set to 0 by [New] / [Clear]) *)
+Definition gi (m : metadata) (k : string) : Z :=
+  match md_get_int m k with Some z => z | None => 0 end.
+
+Lemma gi_add_int m k i k' :
+  gi (md_add_int m k i) k' =
+  gi m k' + (if name_in k md_int_names && String.eqb k' k then i else 0).
+Proof.
+  unfold gi, md_add_int, md_get_int.
+  destruct (name_in k md_int_names) eqn:Ek; cbn [andb]; [|lia].
+  cbn [m_int]. destruct (String.eqb_spec k' k) as [->|Hne].
+  - rewrite Ek. rewrite assoc_aset, String.eqb_refl. destruct (assoc k (m_int m)); lia.
+  - destruct (name_in k' md_int_names); [|lia]. rewrite assoc_aset.
+    destruct (String.eqb_spec k' k); [contradiction|]. destruct (assoc k' (m_int m)); lia.
+Qed.
+
+Lemma gi_set_bool m k b k' : gi (md_set_bool m k b) k' = gi m k'.
+Proof. unfold gi, md_set_bool, md_get_int. destruct (name_in k md_bool_names); reflexivity. Qed.
+
+Lemma gi_set_str m k s k' : gi (md_set_str m k s) k' = gi m k'.
+Proof. unfold gi, md_set_str, md_get_int. destruct (name_in k md_str_names); reflexivity. Qed.
+
+Lemma gi_set_int m k z k' :
+  gi (md_set_int m k z) k' = if name_in k md_int_names && String.eqb k' k then z else gi m k'.
+Proof.
+  unfold gi, md_set_int, md_get_int.
+  destruct (name_in k md_int_names) eqn:Ek; cbn [andb]; [|reflexivity].
+  cbn [m_int]. destruct (String.eqb_spec k' k) as [->|Hne].
+  - rewrite Ek, assoc_aset, String.eqb_refl. reflexivity.
+  - destruct (name_in k' md_int_names); [|reflexivity]. rewrite assoc_aset.
+    destruct (String.eqb_spec k' k); [contradiction|reflexivity].
+Qed.
+
+(** the counters the laws are about *)
+Definition counters : list string :=
+  [md_leaf_count; md_add_count; md_del_count; md_empty_count; md_update_count;
+   md_suppressed_count; md_stale_count; md_future_count].
+
+(** [m'] reads like [m] on every counter, except that [k] moved by [i] *)
+Definition moved (m m' : metadata) (k : string) (i : Z) : Prop :=
+  forall k', In k' counters -> gi m' k' = gi m k' + (if String.eqb k' k then i else 0).
+
+Definition same_counters (m m' : metadata) : Prop := forall k', In k' counters -> gi m' k' = gi m k'.
+
+Lemma same_counters_refl m : same_counters m m. Proof. intros k _. reflexivity. Qed.
+
+Lemma same_counters_trans a b c : same_counters a b -> same_counters b c -> same_counters a c.
+Proof. intros H1 H2 k Hk. rewrite (H2 k Hk). exact (H1 k Hk). Qed.
+
+Lemma moved_add_int m k i : name_in k md_int_names = true -> moved m (md_add_int m k i) k i.
+Proof. intros Hk k' _. rewrite gi_add_int, Hk. reflexivity. Qed.
+
+(** ** the metadata side effects and the latest/size exports leave the counters alone *)
+
+Lemma meta_side_effect_counters t k two u t1 r :
+  meta_side_effect t k two u = (t1, r) -> same_counters (t_meta t) (t_meta t1).
+Proof.
+  unfold meta_side_effect. repeat break_match; intros H; inversion H; subst;
+    intros k' _; cbn [t_meta set_meta set_sync]; rewrite ?gi_set_bool, ?gi_set_str; reflexivity.
+Qed.
+
+Lemma update_pre_counters t p u t1 r :
+  update_pre t p u = (t1, r) -> same_counters (t_meta t) (t_meta t1).
+Proof.
+  unfold update_pre. repeat break_match; intros H;
+    first [ eapply meta_side_effect_counters; eassumption
+          | inversion H; subst; apply same_counters_refl ].
+Qed.
+
+Lemma lat_compute_meta t r ts : t_meta (lat_compute t r ts) = t_meta t.
+Proof. unfold lat_compute. destruct (t_sync t && r); reflexivity. Qed.
+
+(** * gnmiUpdate: where one unit is accounted *)
+
+Inductive unit_fate := UAnnounced | USuppressed | UStale | UFuture | URefused.
+
+Definition fate_of (r : outcome (option notif)) : unit_fate :=
+  match r with
+  | Ok (Some _) => UAnnounced
+  | Ok None => USuppressed
+  | Err e => if N.eqb e err_stale then UStale else if N.eqb e err_future then UFuture else URefused
+  | Panic _ => URefused
+  end.
+
+(** counter movement of gnmiUpdate itself ([updated] is bumped by the caller) *)
+Definition unit_moves (m m' : metadata) (real_new : bool) (f : unit_fate) : Prop :=
+  forall k', In k' counters ->
+    gi m' k' = gi m k' +
+      (if String.eqb k' md_suppressed_count then match f with USuppressed => 1 | _ => 0 end
+       else if String.eqb k' md_stale_count then match f with UStale => 1 | _ => 0 end
+       else if String.eqb k' md_future_count then match f with UFuture => 1 | _ => 0 end
+       else if String.eqb k' md_leaf_count || String.eqb k' md_add_count then (if real_new then 1 else 0)
+       else 0).
+
+Lemma leaf_verdict_cls t now old n e :
+  leaf_verdict t now old n = Some e -> e = err_stale \/ e = err_future.
+Proof.
+  unfold leaf_verdict. repeat break_match; intros H; inversion H; auto.
+Qed.
+
+Ltac in_counters :=
+  repeat match goal with
+         | H : In _ counters |- _ => unfold counters in H
+         | H : In _ (_ :: _) |- _ => destruct H as [ <- | H ]
+         | H : In _ [] |- _ => destruct H
+         end.
+
+Ltac solve_moves :=
+  let k' := fresh "k'" in let Hk := fresh "Hk" in
+  intros k' Hk; cbn [t_meta set_meta set_tree add_int]; rewrite ?lat_compute_meta;
+  cbn [t_meta set_meta set_tree add_int]; rewrite ?gi_add_int;
+  in_counters; cbn; lia.
+
+Lemma update_leaf_moves t1 now p u n t2 r :
+  update_leaf t1 now p u n = (t2, r) ->
+  exists real_new, unit_moves (t_meta t1) (t_meta t2) real_new (fate_of r) /\
+                   (real_new = true -> is_real p = true /\ CTreeModel.get (t_tree t1) p = None).
+Proof.
+  unfold update_leaf. cbv zeta.
+  destruct (CTreeModel.get (t_tree t1) p) as [[old|cs]|] eqn:Hg.
+  - destruct (leaf_verdict t1 now old n) as [e|] eqn:Hv.
+    + destruct (leaf_verdict_cls _ _ _ _ _ Hv) as [ -> | -> ]; intros H; inversion H; subst;
+        exists false; (split; [solve_moves|discriminate]).
+    + repeat break_match; intros H; inversion H; subst; exists false; (split; [solve_moves|discriminate]).
+  - intros H; inversion H; subst. exists false. split; [solve_moves|discriminate].
+  - destruct (CTreeModel.add (t_tree t1) p n) as [tr'|]; [|intros H; inversion H; subst; exists false;
+      (split; [solve_moves|discriminate])].
+    destruct (is_real p) eqn:Er; intros H; inversion H; subst.
+    + exists true. split; [solve_moves|auto].
+    + exists false. split; [solve_moves|discriminate].
+Qed.
+
+Lemma join_path_not_err pr ph e : join_path pr ph <> Err e.
+Proof.
+  unfold join_path, join_prefix_and_path.
+  destruct (to_strings true (gp_of_opt pr) ++ to_strings false (gp_of_opt ph)); discriminate.
+Qed.
+
+Lemma unit_index_not_err n e : unit_index n <> Err e.
+Proof. unfold unit_index. destruct (n_upd n); [discriminate|apply join_path_not_err]. Qed.
+
+Lemma unit_moves_same m m1 m2 b f :
+  same_counters m m1 -> unit_moves m1 m2 b f -> unit_moves m m2 b f.
+Proof. intros H1 H2 k Hk. rewrite (H2 k Hk), (H1 k Hk). reflexivity. Qed.
+
+Lemma unit_moves_refused m m' : same_counters m m' -> unit_moves m m' false URefused.
+Proof.
+  intros H k Hk. rewrite (H k Hk). in_counters; cbn; lia.
+Qed.
+
+(** gnmiUpdate accounts one unit: the fate of the unit decides which counter
+    moves (the caller bumps [updated] when the unit is announced), and the leaf
+    counters move only when a new non-metadata leaf is created *)
+Theorem gnmi_update1_moves t now n t' r :
+  gnmi_update1 t now n = (t', r) ->
+  exists real_new, unit_moves (t_meta t) (t_meta t') real_new (fate_of r).
+Proof.
+  unfold gnmi_update1. destruct (n_upd n) as [|u ?].
+  { intros H; inversion H; subst. exists false. apply unit_moves_refused, same_counters_refl. }
+  destruct (unit_index n) as [p|e|w] eqn:Hi.
+  2:{ exfalso. eapply unit_index_not_err; eauto. }
+  2:{ intros H; inversion H; subst. exists false. apply unit_moves_refused, same_counters_refl. }
+  destruct (update_pre t p u) as [t1 r1] eqn:Hpre.
+  pose proof (update_pre_counters _ _ _ _ _ Hpre) as Hsame.
+  destruct r1 as [[]|e|w].
+  - intros H. destruct (update_leaf_moves _ _ _ _ _ _ _ H) as (b & Hm & _).
+    exists b. eapply unit_moves_same; eauto.
+  - intros H; inversion H; subst. exists false.
+    assert (Hf : fate_of (Err e : outcome (option notif)) = URefused).
+    { revert Hpre. unfold update_pre, meta_side_effect. repeat break_match; intros Hx; inversion Hx; subst; reflexivity. }
+    rewrite Hf. now apply unit_moves_refused.
+  - intros H; inversion H; subst. exists false. now apply unit_moves_refused.
+Qed.
+
+(** * gnmiRemove *)
+
+Lemma reset_entry_counters m k : ~ In k counters -> same_counters m (md_reset_entry m k).
+Proof.
+  intros Hk k' Hk'. unfold md_reset_entry. repeat break_match; cbn [m_int];
+    rewrite ?gi_set_bool, ?gi_set_str, ?gi_set_int; try reflexivity.
+  destruct (String.eqb_spec k' k) as [->|]; [contradiction|]. now rewrite andb_false_r.
+Qed.
+
+(** the delete is not addressed to the metadata leaf of one of the counters
+    (such a delete resets that counter: [gnmiRemove] calls [ResetEntry]) *)
+Definition no_counter_reset (pr : option gpath) (d : gpath) : Prop :=
+  match join_path pr (Some d) with
+  | Ok (p0 :: k :: _) => p0 = md_root -> ~ In k counters
+  | _ => True
+  end.
+
+(** the removed leaves that count: those not indexed under "meta" *)
+Definition counted (removed : list notif) : Z :=
+  Z.of_nat (List.length (filter (fun d => negb (stored_under_meta d)) removed)).
+
+Theorem gnmi_remove_moves t n d ds t' r :
+  n_del n = d :: ds -> no_counter_reset (n_prefix n) d ->
+  gnmi_remove t n = (t', r) -> (forall w, r <> Panic w) ->
+  exists removed, r = Ok removed /\
+    forall k', In k' counters ->
+      gi (t_meta t') k' = gi (t_meta t) k' +
+        (if String.eqb k' md_leaf_count then - counted removed
+         else if String.eqb k' md_del_count then counted removed else 0).
+Proof.
+  intros Hd Hnc. unfold gnmi_remove. rewrite Hd. unfold no_counter_reset in Hnc.
+  destruct (join_path (n_prefix n) (Some d)) as [p|e|w] eqn:Hj.
+  2:{ exfalso. eapply join_path_not_err; eauto. }
+  2:{ intros H Hp; inversion H; subst. exfalso. eapply Hp; reflexivity. }
+  cbv zeta.
+  match goal with |- context [t_tree ?x] => set (t1 := x) end.
+  assert (H1 : same_counters (t_meta t) (t_meta t1)).
+  { subst t1. repeat break_match; try apply same_counters_refl.
+    cbn [t_meta set_meta]. apply reset_entry_counters. apply Hnc.
+    match goal with H : String.eqb _ md_root = true |- _ => apply String.eqb_eq in H; exact H end. }
+  clearbody t1.
+  destruct (map snd (snd (delete_cond (t_tree t1) p (fun v => Z.ltb (n_ts v) (n_ts n))))) as [|x l] eqn:E.
+  - intros H _; injection H as Ht Hr; subst t' r.
+    exists []. split; [reflexivity|]. intros k' Hk. cbn [t_meta set_tree]. rewrite (H1 k' Hk).
+    in_counters; cbn; lia.
+  - fold (counted (x :: l)). remember (counted (x :: l)) as L eqn:HL.
+    intros H _; injection H as Ht Hr; subst t' r.
+    exists (x :: l). split; [reflexivity|]. intros k' Hk. rewrite <- HL. clear HL.
+    cbn [t_meta set_meta set_tree add_int]. rewrite !gi_add_int. rewrite (H1 k' Hk).
+    in_counters; cbn; lia.
+Qed.
+
+(** * Target.GnmiUpdate: the accounting law *)
+
+Definition D (t t' : target) (k : string) : Z := gi (t_meta t') k - gi (t_meta t) k.
+
+Definition is_stale (e : N) : bool := N.eqb e err_stale.
+Definition is_future (e : N) : bool := N.eqb e err_future.
+Definition is_other (e : N) : bool := negb (is_stale e) && negb (is_future e).
+
+Fixpoint cnt_err (p : N -> bool) (l : list N) : Z :=
+  match l with
+  | [] => 0
+  | e :: l' => (if p e then 1 else 0) + cnt_err p l'
+  end.
+
+Lemma cnt_err_app p a b : cnt_err p (a ++ b) = cnt_err p a + cnt_err p b.
+Proof. induction a as [|x a IH]; cbn [app cnt_err]; lia. Qed.
+
+(** [units] submitted units, each weighing [w] in [updated] when announced,
+    [errs] the error classes returned: every unit is in exactly one of
+    announced / suppressed / stale / future / returned as another error *)
+Definition law (t t' : target) (units w : Z) (errs : list N) : Prop :=
+  exists a s, 0 <= a /\ 0 <= s /\
+    D t t' md_update_count = w * a /\
+    D t t' md_suppressed_count = s /\
+    D t t' md_stale_count = cnt_err is_stale errs /\
+    D t t' md_future_count = cnt_err is_future errs /\
+    D t t' md_empty_count = 0 /\
+    D t t' md_leaf_count = D t t' md_add_count - D t t' md_del_count /\
+    a + s + cnt_err is_stale errs + cnt_err is_future errs + cnt_err is_other errs = units.
+
+Definition errs_of (r : gres) : list N :=
+  match r with GOk => [] | GErr e => [e] | GErrs es => es | GPanic _ => [] end.
+
+(** the errors of one unit, by its fate *)
+Lemma fate_cases (r : outcome (option notif)) :
+  match r with
+  | Ok (Some _) => fate_of r = UAnnounced
+  | Ok None => fate_of r = USuppressed
+  | Err e => (fate_of r = UStale /\ is_stale e = true /\ is_future e = false) \/
+             (fate_of r = UFuture /\ is_stale e = false /\ is_future e = true) \/
+             (fate_of r = URefused /\ is_stale e = false /\ is_future e = false)
+  | Panic _ => True
+  end.
+Proof.
+  destruct r as [[nd|]|e|w]; cbn; auto. unfold is_stale, is_future.
+  destruct (N.eqb_spec e err_stale) as [->|]; [left; auto|].
+  destruct (N.eqb_spec e err_future) as [->|]; [right; left; auto|right; right; auto].
+Qed.
+
+Lemma unit_moves_D t t' b f k :
+  unit_moves (t_meta t) (t_meta t') b f -> In k counters ->
+  D t t' k =
+      (if String.eqb k md_suppressed_count then match f with USuppressed => 1 | _ => 0 end
+       else if String.eqb k md_stale_count then match f with UStale => 1 | _ => 0 end
+       else if String.eqb k md_future_count then match f with UFuture => 1 | _ => 0 end
+       else if String.eqb k md_leaf_count || String.eqb k md_add_count then (if b then 1 else 0)
+       else 0).
+Proof. intros H Hk. unfold D. rewrite (H k Hk). lia. Qed.
+
+Lemma D_trans t1 t2 t3 k : D t1 t3 k = D t1 t2 k + D t2 t3 k.
+Proof. unfold D. lia. Qed.
+
+Lemma D_add_int t k i k' :
+  D t (add_int t k i) k' = (if name_in k md_int_names && String.eqb k' k then i else 0).
+Proof. unfold D. cbn [t_meta add_int set_meta]. rewrite gi_add_int. lia. Qed.
+
+Lemma D_finish_ts n b t t0 k : D t0 (finish_ts n b t) k = D t0 t k.
+Proof.
+  unfold D, finish_ts. destruct (tracks_ts n && b); [|reflexivity].
+  unfold check_timestamp. destruct (t_ts t) as [z|]; [destruct (Z.ltb z (n_ts n))|]; reflexivity.
+Qed.
+
+Ltac counter_in := unfold counters; cbn; tauto.
+
+(** one update unit processed by the caller of gnmiUpdate: [updated] is bumped
+    by [w] when the unit is announced *)
+Lemma law_update_unit t now n t1 r w :
+  0 <= w ->
+  gnmi_update1 t now n = (t1, r) -> (forall x, r <> Panic x) ->
+  let t' := match r with Ok (Some _) => add_int t1 md_update_count w | _ => t1 end in
+  law t t' 1 w (match r with Err e => [e] | _ => [] end).
+Proof.
+  intros Hw E Hp. destruct (gnmi_update1_moves _ _ _ _ _ E) as (b & Hm).
+  pose proof (fate_cases r) as Hf.
+  assert (HD : forall k, In k counters -> D t t1 k = _) by (intros k Hk; exact (unit_moves_D _ _ _ _ k Hm Hk)).
+  cbv zeta. unfold law.
+  destruct r as [[nd|]|e|x]; [| | |exfalso; eapply Hp; reflexivity].
+  - rewrite Hf in HD. exists 1, 0. rewrite !(D_trans t t1 (add_int t1 md_update_count w)), !D_add_int.
+    rewrite !HD by counter_in. cbn. lia.
+  - rewrite Hf in HD. exists 0, 1. rewrite !HD by counter_in. cbn. lia.
+  - exists 0, 0. cbn [cnt_err]. unfold is_other.
+    destruct Hf as [(Hfa & Hs & Hfu)|[(Hfa & Hs & Hfu)|(Hfa & Hs & Hfu)]];
+      rewrite Hfa in HD; rewrite Hs, Hfu; rewrite !HD by counter_in; cbn; lia.
+Qed.
+
+(** one delete unit: always counted in [updated] *)
+Lemma law_delete_unit t n d ds t1 r :
+  n_del n = d :: ds -> no_counter_reset (n_prefix n) d ->
+  gnmi_remove (add_int t md_update_count 1) n = (t1, r) -> (forall x, r <> Panic x) ->
+  law t t1 1 1 [].
+Proof.
+  intros Hd Hnc E Hp. destruct (gnmi_remove_moves _ _ _ _ _ _ Hd Hnc E Hp) as (removed & _ & Hm).
+  assert (HD : forall k, In k counters ->
+            D t t1 k = (if String.eqb k md_update_count then 1 else 0) +
+                       (if String.eqb k md_leaf_count then - counted removed
+                        else if String.eqb k md_del_count then counted removed else 0)).
+  { intros k Hk. rewrite (D_trans t (add_int t md_update_count 1) t1), D_add_int.
+    unfold D at 1. rewrite (Hm k Hk). cbn [name_in]. 
+    assert (Hn : name_in md_update_count md_int_names = true) by reflexivity. rewrite Hn. cbn [andb]. lia. }
+  unfold law. exists 1, 0. rewrite !HD by counter_in. cbn. lia.
+Qed.
+
+Lemma law_compose t t1 t2 u1 u2 w e1 e2 :
+  law t t1 u1 w e1 -> law t1 t2 u2 w e2 -> law t t2 (u1 + u2) w (e1 ++ e2).
+Proof.
+  intros (a1 & s1 & A1 & A2 & A3 & A4 & A5 & A6 & A7 & A9 & A8) (a2 & s2 & B1 & B2 & B3 & B4 & B5 & B6 & B7 & B9 & B8).
+  exists (a1 + a2), (s1 + s2). rewrite !(D_trans t t1 t2), !cnt_err_app.
+  rewrite A3, A4, A5, A6, A7, B3, B4, B5, B6, B7. lia.
+Qed.
+
+Lemma law_refl t w : law t t 0 w [].
+Proof. exists 0, 0. unfold D. cbn. lia. Qed.
+
+(** ** multi notifications: the two folds *)
+
+Definition acc_law (t : target) (a : acc) (processed : Z) : Prop :=
+  a_panic a = None -> law t (a_t a) processed 1 (a_errs a).
+
+Lemma multi_update_step_law t now n a u processed :
+  acc_law t a processed -> acc_law t (multi_update_step now n a u) (processed + 1).
+Proof.
+  intros Ha. unfold multi_update_step, acc_law.
+  destruct (a_panic a) eqn:Ep; [intros Hn; congruence|].
+  specialize (Ha Ep).
+  destruct (gnmi_update1 (a_t a) now (clone_with_update n u)) as [t1 r1] eqn:E.
+  destruct r1 as [[nd|]|e|w]; cbn [a_panic a_t a_errs]; intros Hn; try discriminate.
+  - pose proof (law_update_unit _ _ _ _ _ 1 ltac:(lia) E ltac:(discriminate)) as Hu. cbv zeta in Hu.
+    pose proof (law_compose _ _ _ _ _ _ _ _ Ha Hu) as Hc. now rewrite app_nil_r in Hc.
+  - pose proof (law_update_unit _ _ _ _ _ 1 ltac:(lia) E ltac:(discriminate)) as Hu. cbv zeta in Hu.
+    pose proof (law_compose _ _ _ _ _ _ _ _ Ha Hu) as Hc. now rewrite app_nil_r in Hc.
+  - pose proof (law_update_unit _ _ _ _ _ 1 ltac:(lia) E ltac:(discriminate)) as Hu. cbv zeta in Hu.
+    exact (law_compose _ _ _ _ _ _ _ _ Ha Hu).
+Qed.
+
+Lemma multi_delete_step_law t n a d processed :
+  no_counter_reset (n_prefix n) d ->
+  acc_law t a processed -> acc_law t (multi_delete_step n a d) (processed + 1).
+Proof.
+  intros Hnc Ha. unfold multi_delete_step, acc_law.
+  destruct (a_panic a) eqn:Ep; [intros Hn; congruence|].
+  specialize (Ha Ep). cbv zeta.
+  destruct (gnmi_remove (add_int (a_t a) md_update_count 1) (clone_with_delete n d)) as [t1 r1] eqn:E.
+  assert (Hd : n_del (clone_with_delete n d) = d :: []) by reflexivity.
+  destruct r1 as [removed|e|w]; cbn [a_panic a_t a_errs]; intros Hn; try discriminate.
+  - pose proof (law_delete_unit _ _ _ _ _ _ Hd Hnc E ltac:(discriminate)) as Hu.
+    pose proof (law_compose _ _ _ _ _ _ _ _ Ha Hu) as Hc. now rewrite app_nil_r in Hc.
+  - exfalso. destruct (gnmi_remove_moves _ _ _ _ _ _ Hd Hnc E ltac:(discriminate)) as (rm & Hr & _). discriminate.
+Qed.
+
+Lemma fold_updates_law t now n us : forall a processed,
+  acc_law t a processed ->
+  acc_law t (fold_left (multi_update_step now n) us a) (processed + Z.of_nat (List.length us)).
+Proof.
+  induction us as [|u us IH]; intros a processed Ha; cbn [fold_left List.length].
+  - now rewrite Z.add_0_r.
+  - rewrite Nat2Z.inj_succ. replace (processed + Z.succ (Z.of_nat (List.length us)))
+      with ((processed + 1) + Z.of_nat (List.length us)) by lia.
+    apply IH. now apply multi_update_step_law.
+Qed.
+
+Lemma fold_deletes_law t n ds : forall a processed,
+  Forall (no_counter_reset (n_prefix n)) ds ->
+  acc_law t a processed ->
+  acc_law t (fold_left (multi_delete_step n) ds a) (processed + Z.of_nat (List.length ds)).
+Proof.
+  induction ds as [|d ds IH]; intros a processed Hf Ha; cbn [fold_left List.length].
+  - now rewrite Z.add_0_r.
+  - inversion Hf as [|? ? Hd Hds]; subst. rewrite Nat2Z.inj_succ.
+    replace (processed + Z.succ (Z.of_nat (List.length ds)))
+      with ((processed + 1) + Z.of_nat (List.length ds)) by lia.
+    apply IH; [exact Hds|]. now apply multi_delete_step_law.
+Qed.
+
+Lemma multi_law t now n us ds :
+  Forall (no_counter_reset (n_prefix n)) ds ->
+  let a2 := fold_left (multi_delete_step n) ds
+              (fold_left (multi_update_step now n) us (Acc t [] [] false None)) in
+  a_panic a2 = None ->
+  law t (a_t a2) (Z.of_nat (List.length us) + Z.of_nat (List.length ds)) 1 (a_errs a2).
+Proof.
+  intros Hf a2 Hp.
+  assert (H0 : acc_law t (Acc t [] [] false None) 0) by (intros _; apply law_refl).
+  pose proof (fold_updates_law t now n us _ _ H0) as H1.
+  pose proof (fold_deletes_law t n ds _ _ Hf H1) as H2. cbn [Z.add] in H2.
+  exact (H2 Hp).
+Qed.
+
+Lemma law_finish t t1 n b u w errs : law t t1 u w errs -> law t (finish_ts n b t1) u w errs.
+Proof.
+  intros (a & s & H). exists a, s. now rewrite !D_finish_ts.
+Qed.
+
+Definition multi_res (a2 : acc) : gres :=
+  match a_panic a2 with
+  | Some w => GPanic w
+  | None => match a_errs a2 with [] => GOk | es => GErrs es end
+  end.
+
+Lemma multi_branch t now n us ds :
+  Forall (no_counter_reset (n_prefix n)) ds ->
+  let a2 := fold_left (multi_delete_step n) ds
+              (fold_left (multi_update_step now n) us (Acc t [] [] false None)) in
+  (forall w, multi_res a2 <> GPanic w) ->
+  law t (finish_ts n (a_ok a2) (a_t a2))
+      (Z.of_nat (List.length us) + Z.of_nat (List.length ds)) 1 (errs_of (multi_res a2)).
+Proof.
+  intros Hnc a2 Hp.
+  assert (Hpa : a_panic a2 = None).
+  { destruct (a_panic a2) eqn:Ea; [|reflexivity]. exfalso. unfold multi_res in Hp. rewrite Ea in Hp.
+    eapply Hp; reflexivity. }
+  pose proof (multi_law t now n us ds Hnc Hpa) as Hl. fold a2 in Hl.
+  unfold multi_res. rewrite Hpa. apply law_finish. destruct (a_errs a2); exact Hl.
+Qed.
+
+(** ** the law for every notification *)
+
+(** submitted units and the weight of an announced unit in [updated]; [None]:
+    the notification is refused as a whole (atomic with deletes) *)
+Definition units (n : notif) : option (Z * Z) :=
+  if n_atomic n then
+    match n_del n, n_upd n with
+    | _ :: _, _ => None
+    | [], [] => Some (0, 1)
+    | [], us => Some (1, Z.of_nat (List.length us))
+    end
+  else Some (Z.of_nat (List.length (n_upd n)) + Z.of_nat (List.length (n_del n)), 1).
+
+(** update_accounting: every submitted ingest unit lands in exactly one of
+    updated / suppressed / stale / future or is returned as an error (counted
+    in none); an empty notification is counted in empty and nowhere else; a
+    notification refused as a whole moves nothing *)
+Theorem update_accounting t now n t' fd r :
+  target_gnmi_update t now n = (t', fd, r) -> (forall w, r <> GPanic w) ->
+  Forall (no_counter_reset (n_prefix n)) (n_del n) ->
+  match units n with
+  | None => forall k, In k counters -> D t t' k = 0
+  | Some (u, w) =>
+      if Z.eqb u 0
+      then D t t' md_empty_count = 1 /\
+           forall k, In k counters -> k <> md_empty_count -> D t t' k = 0
+      else law t t' u w (errs_of r)
+  end.
+Proof.
+  intros E Hp Hnc. unfold target_gnmi_update in E. unfold units.
+  destruct (n_atomic n) eqn:Eat.
+  - destruct (n_del n) as [|d ds] eqn:Ed.
+    + destruct (n_upd n) as [|u us] eqn:Eu.
+      * inversion E; subst. cbn [Z.eqb]. split; [rewrite D_add_int; reflexivity|].
+        intros k Hk Hne. rewrite D_add_int. in_counters; cbn; congruence.
+      * destruct (gnmi_update1 t now n) as [t1 r1] eqn:E1.
+        assert (Hw : 0 <= Z.of_nat (List.length (u :: us))) by lia.
+        assert (Hr1 : forall x, r1 <> Panic x).
+        { intros x ->. inversion E; subst. eapply Hp; reflexivity. }
+        pose proof (law_update_unit _ _ _ _ _ _ Hw E1 Hr1) as Hu. cbv zeta in Hu.
+        cbn [Z.eqb]. destruct r1 as [[nd|]|e|x]; inversion E; subst; cbn [errs_of];
+          try (apply law_finish; exact Hu).
+    + inversion E; subst. intros k _. unfold D. lia.
+  - destruct (n_upd n) as [|u [|u2 us]] eqn:Eu; destruct (n_del n) as [|d [|d2 ds]] eqn:Ed.
+    + (* empty *)
+      inversion E; subst. cbn [List.length Z.of_nat Z.add Z.eqb]. split; [rewrite D_add_int; reflexivity|].
+      intros k Hk Hne. rewrite D_add_int. in_counters; cbn; congruence.
+    + (* single delete *)
+      destruct (gnmi_remove (add_int t md_update_count 1) n) as [t1 r1] eqn:E1.
+      inversion Hnc as [|? ? Hd _]; subst.
+      assert (Hr1 : forall x, r1 <> Panic x).
+      { intros x ->. inversion E; subst. eapply Hp; reflexivity. }
+      pose proof (law_delete_unit _ _ _ _ _ _ Ed Hd E1 Hr1) as Hu.
+      destruct (gnmi_remove_moves _ _ _ _ _ _ Ed Hd E1 Hr1) as (rm & -> & _).
+      inversion E; subst. cbn. exact Hu.
+    + (* several deletes *)
+      injection E as Ht Hfd Hr. subst t' fd r.
+      exact (multi_branch t now n [] (d :: d2 :: ds) Hnc Hp).
+    + (* single update *)
+      destruct (gnmi_update1 t now n) as [t1 r1] eqn:E1.
+      assert (Hr1 : forall x, r1 <> Panic x).
+      { intros x ->. inversion E; subst. eapply Hp; reflexivity. }
+      pose proof (law_update_unit _ _ _ _ _ 1 ltac:(lia) E1 Hr1) as Hu. cbv zeta in Hu.
+      cbn. destruct r1 as [[nd|]|e|x]; inversion E; subst; cbn [errs_of];
+        try (apply law_finish; exact Hu).
+    + injection E as Ht Hfd Hr. subst t' fd r.
+      exact (multi_branch t now n [u] [d] Hnc Hp).
+    + injection E as Ht Hfd Hr. subst t' fd r.
+      assert (Hz : Z.eqb (Z.of_nat (List.length [u]) + Z.of_nat (List.length (d :: d2 :: ds))) 0 = false)
+        by (apply Z.eqb_neq; cbn [List.length]; lia).
+      rewrite Hz. exact (multi_branch t now n [u] (d :: d2 :: ds) Hnc Hp).
+    + injection E as Ht Hfd Hr. subst t' fd r.
+      assert (Hz : Z.eqb (Z.of_nat (List.length (u :: u2 :: us)) + Z.of_nat (List.length (@nil gpath))) 0 = false)
+        by (apply Z.eqb_neq; cbn [List.length]; lia).
+      rewrite Hz. exact (multi_branch t now n (u :: u2 :: us) [] Hnc Hp).
+    + injection E as Ht Hfd Hr. subst t' fd r.
+      assert (Hz : Z.eqb (Z.of_nat (List.length (u :: u2 :: us)) + Z.of_nat (List.length [d])) 0 = false)
+        by (apply Z.eqb_neq; cbn [List.length]; lia).
+      rewrite Hz. exact (multi_branch t now n (u :: u2 :: us) [d] Hnc Hp).
+    + injection E as Ht Hfd Hr. subst t' fd r.
+      assert (Hz : Z.eqb (Z.of_nat (List.length (u :: u2 :: us)) + Z.of_nat (List.length (d :: d2 :: ds))) 0 = false)
+        by (apply Z.eqb_neq; cbn [List.length]; lia).
+      rewrite Hz. exact (multi_branch t now n (u :: u2 :: us) (d :: d2 :: ds) Hnc Hp).
+Qed.
+
+(** balance of the leaf counters across one notification *)
+Theorem leafcount_add_minus_del_step t now n t' fd r :
+  target_gnmi_update t now n = (t', fd, r) -> (forall w, r <> GPanic w) ->
+  Forall (no_counter_reset (n_prefix n)) (n_del n) ->
+  D t t' md_leaf_count = D t t' md_add_count - D t t' md_del_count.
+Proof.
+  intros E Hp Hnc. pose proof (update_accounting t now n t' fd r E Hp Hnc) as H.
+  destruct (units n) as [[u w]|].
+  - destruct (Z.eqb u 0).
+    + destruct H as [_ H]. rewrite !H; try counter_in; try discriminate; try lia.
+    + destruct H as (a & s & _ & _ & _ & _ & _ & _ & _ & Hb & _). exact Hb.
+  - rewrite !H by counter_in. lia.
+Qed.
+
+(** * Latest timestamp *)
+
+Lemma lat_compute_ts t r ts : t_ts (lat_compute t r ts) = t_ts t.
+Proof. unfold lat_compute. destruct (t_sync t && r); reflexivity. Qed.
+
+Lemma meta_side_effect_ts t k two u t1 r : meta_side_effect t k two u = (t1, r) -> t_ts t1 = t_ts t.
+Proof. unfold meta_side_effect. repeat break_match; intros H; inversion H; subst; reflexivity. Qed.
+
+Lemma update_pre_ts t p u t1 r : update_pre t p u = (t1, r) -> t_ts t1 = t_ts t.
+Proof.
+  unfold update_pre. repeat break_match; intros H;
+    first [ eapply meta_side_effect_ts; eassumption | inversion H; subst; reflexivity ].
+Qed.
+
+Lemma update_leaf_ts t1 now p u n t2 r : update_leaf t1 now p u n = (t2, r) -> t_ts t2 = t_ts t1.
+Proof.
+  unfold update_leaf. repeat break_match; intros H; inversion H; subst;
+    rewrite ?lat_compute_ts; reflexivity.
+Qed.
+
+Lemma gnmi_update1_ts t now n t' r : gnmi_update1 t now n = (t', r) -> t_ts t' = t_ts t.
+Proof.
+  unfold gnmi_update1. destruct (n_upd n) as [|u ?]; [intros H; inversion H; reflexivity|].
+  destruct (unit_index n) as [p|e|w]; try (intros H; inversion H; reflexivity).
+  destruct (update_pre t p u) as [t1 r1] eqn:Hpre. pose proof (update_pre_ts _ _ _ _ _ Hpre) as H1.
+  destruct r1 as [[]|e|w]; try (intros H; inversion H; subst; exact H1).
+  intros H. rewrite (update_leaf_ts _ _ _ _ _ _ _ H). exact H1.
+Qed.
+
+Lemma gnmi_remove_ts t n t' r : gnmi_remove t n = (t', r) -> t_ts t' = t_ts t.
+Proof.
+  unfold gnmi_remove. repeat break_match; intros H; inversion H; subst; reflexivity.
+Qed.
+
+Lemma multi_update_step_ts now n a u : t_ts (a_t (multi_update_step now n a u)) = t_ts (a_t a).
+Proof.
+  unfold multi_update_step. destruct (a_panic a); [reflexivity|].
+  destruct (gnmi_update1 (a_t a) now (clone_with_update n u)) as [t1 r1] eqn:E.
+  pose proof (gnmi_update1_ts _ _ _ _ _ E) as Hts.
+  destruct r1 as [[nd|]|e|w]; cbn [a_t]; exact Hts.
+Qed.
+
+Lemma multi_delete_step_ts n a d : t_ts (a_t (multi_delete_step n a d)) = t_ts (a_t a).
+Proof.
+  unfold multi_delete_step. destruct (a_panic a); [reflexivity|]. cbv zeta.
+  destruct (gnmi_remove (add_int (a_t a) md_update_count 1) (clone_with_delete n d)) as [t1 r1] eqn:E.
+  pose proof (gnmi_remove_ts _ _ _ _ E) as Hts.
+  destruct r1 as [rm|e|w]; cbn [a_t]; exact Hts.
+Qed.
+
+Lemma fold_ts {A} (f : acc -> A -> acc) (l : list A) :
+  (forall a x, t_ts (a_t (f a x)) = t_ts (a_t a)) ->
+  forall a, t_ts (a_t (fold_left f l a)) = t_ts (a_t a).
+Proof. intros Hf. induction l as [|x l IH]; cbn; intros a; [reflexivity|]. now rewrite IH, Hf. Qed.
+
+(** the latest timestamp after a notification: unchanged, or -- only when the
+    notification is tracked (first update not under "meta") -- moved forward
+    to the notification's timestamp *)
+Definition ts_le (a b : option Z) : Prop :=
+  match a, b with
+  | None, _ => True
+  | Some x, Some y => x <= y
+  | Some _, None => False
+  end.
+
+Lemma finish_ts_cases n b t0 t :
+  t_ts t = t_ts t0 ->
+  (t_ts (finish_ts n b t) = t_ts t0 \/
+   (tracks_ts n = true /\ b = true /\ t_ts (finish_ts n b t) = Some (n_ts n) /\
+    forall z, t_ts t0 = Some z -> z < n_ts n)) /\
+  ts_le (t_ts t0) (t_ts (finish_ts n b t)) /\
+  (tracks_ts n = true -> b = true -> ts_le (Some (n_ts n)) (t_ts (finish_ts n b t))).
+Proof.
+  intros Hts. unfold finish_ts. destruct (tracks_ts n) eqn:Et; destruct b; cbn [andb];
+    try (rewrite Hts; split; [now left|split; [destruct (t_ts t0); cbn; lia|intros; discriminate]]).
+  unfold check_timestamp. rewrite Hts. destruct (t_ts t0) as [z|] eqn:E0.
+  - destruct (Z.ltb_spec z (n_ts n)); cbn [t_ts set_ts].
+    + split; [right; repeat split; auto; intros z' Hz; inversion Hz; subst; assumption|].
+      split; [cbn; lia|intros; cbn; lia].
+    + rewrite Hts. split; [now left|]. split; [cbn; lia|intros; cbn; lia].
+  - cbn [t_ts set_ts]. split; [right; repeat split; auto; intros z Hz; discriminate|].
+    split; [exact I|intros; cbn; lia].
+Qed.
+
+Theorem latest_step t now n t' fd r :
+  target_gnmi_update t now n = (t', fd, r) ->
+  (t_ts t' = t_ts t \/
+   (tracks_ts n = true /\ t_ts t' = Some (n_ts n) /\ forall z, t_ts t = Some z -> z < n_ts n)) /\
+  ts_le (t_ts t) (t_ts t').
+Proof.
+  unfold target_gnmi_update.
+  assert (Hfold : forall us ds,
+            t_ts (a_t (fold_left (multi_delete_step n) ds
+                        (fold_left (multi_update_step now n) us (Acc t [] [] false None)))) = t_ts t).
+  { intros us ds. rewrite (fold_ts _ ds (multi_delete_step_ts n)).
+    rewrite (fold_ts _ us (multi_update_step_ts now n)). reflexivity. }
+  assert (Hself : ts_le (t_ts t) (t_ts t)) by (destruct (t_ts t); cbn; lia).
+  repeat break_match; intros H; inversion H; subst;
+    try (split; [now left|exact Hself]);
+    try match goal with
+      | E : gnmi_update1 t now n = (?t1, _) |- context [finish_ts n ?b ?x] =>
+          let Hts := fresh in
+          assert (Hts : t_ts x = t_ts t) by (cbn [t_ts add_int set_meta]; exact (gnmi_update1_ts _ _ _ _ _ E));
+          destruct (finish_ts_cases n b t x Hts) as ([Hc|(Hc1 & _ & Hc2 & Hc3)] & Hle & _);
+          (split; [first [now left|right; auto]|exact Hle])
+      | E : gnmi_remove _ n = (?t1, _) |- _ =>
+          rewrite (gnmi_remove_ts _ _ _ _ E); cbn [t_ts add_int set_meta]; split; [now left|exact Hself]
+      end;
+    try match goal with
+      | |- context [finish_ts n ?b (a_t ?a2)] =>
+          let Hts := fresh in
+          assert (Hts : t_ts (a_t a2) = t_ts t) by
+            (first [ exact (Hfold _ _)
+                   | rewrite ?multi_delete_step_ts, ?multi_update_step_ts;
+                     rewrite ?(fold_ts _ _ (multi_delete_step_ts n)), ?multi_delete_step_ts, ?multi_update_step_ts;
+                     rewrite ?(fold_ts _ _ (multi_update_step_ts now n)), ?multi_update_step_ts; reflexivity ]);
+          destruct (finish_ts_cases n b t (a_t a2) Hts) as ([Hc|(Hc1 & _ & Hc2 & Hc3)] & Hle & _);
+          (split; [first [now left|right; auto]|exact Hle])
+      end.
+Qed.
+
+(** an accepted single update whose path is tracked moves the latest timestamp
+    to at least its own; a rejected one leaves it alone *)
+Theorem latest_single t now n u t' fd r :
+  n_atomic n = false -> n_upd n = [u] -> n_del n = [] ->
+  target_gnmi_update t now n = (t', fd, r) ->
+  match r with
+  | GOk => tracks_ts n = true -> ts_le (Some (n_ts n)) (t_ts t')
+  | _ => t_ts t' = t_ts t
+  end.
+Proof.
+  intros Ha Hu Hd. unfold target_gnmi_update. rewrite Ha, Hu, Hd.
+  destruct (gnmi_update1 t now n) as [t1 r1] eqn:E.
+  pose proof (gnmi_update1_ts _ _ _ _ _ E) as Hts.
+  destruct r1 as [[nd|]|e|w]; intros H; inversion H; subst.
+  - intros Ht. assert (Hts' : t_ts (add_int t1 md_update_count 1) = t_ts t) by exact Hts.
+    destruct (finish_ts_cases n true t _ Hts') as (_ & _ & Hx). auto.
+  - intros Ht. destruct (finish_ts_cases n true t _ Hts) as (_ & _ & Hx). auto.
+  - unfold finish_ts. rewrite andb_false_r. exact Hts.
+  - unfold finish_ts. rewrite andb_false_r. exact Hts.
+Qed.
+
+(** * leafcount_is_tree *)
+
+(** number of leaves stored outside "meta" *)
+Definition real_leaves (t : target) : Z :=
+  Z.of_nat (List.length (filter (fun pv => is_real (fst pv)) (walk (t_tree t)))).
+
+Definition ex15_cfg : config := Cfg 0 true [].
+Definition ex15_c0 : cache := new_cache ex15_cfg ["t"].
+Definition ex15_c1 : cache := crun ex15_c0 [MConnectError 1 "t" "boom"; MConnect 2 "t"].
+
+(** FULL STATEMENT (not finished):
+      for every reachable target t, gi (t_meta t) md_leaf_count = real_leaves t.
+    It was false before ccc875e (fix of DESIGN 7.11: gnmiRemove counted deleted
+    metadata leaves; ConnectError then Connect gave -1).  Proved part:
+    [gnmi_remove_moves] (the count moves by exactly the removed leaves NOT under
+    "meta") and [gnmi_update1_moves] (it moves by 1 exactly when a new leaf is
+    created outside "meta"); what is missing is the counting argument relating
+    [walk] before and after [add] / [delete_cond].  The former witness: *)
+Example leafcount_former_witness :
+  exists t, assoc "t" (c_targets ex15_c1) = Some t /\
+            gi (t_meta t) md_leaf_count = 0 /\ real_leaves t = 0.
+Proof. vm_compute. eexists. split; [reflexivity|]. split; reflexivity. Qed.
+
+(** * Lockset annotation of the fields shared by the update stream and the
+      periodic refresh (UpdateMetadata / UpdateSize goroutines)
+
+    One entry per access site of cache/cache.go: field, read/write, which of
+    the two goroutines can execute the site, the mutexes held there.  That the
+    table matches the code is validated only by the race detector (thorough
+    tier, supporting evidence). *)
+
+Inductive field := FSync | FTs | FMeta | FLat | FTree.
+Inductive mutex := MuTs | MuMeta | MuLat | MuTree.
+Inductive thread := Stream | Refresh.
+
+Record access := Acs {
+  ac_field : field; ac_write : bool; ac_thread : thread; ac_held : list mutex; ac_site : string }.
+
+Definition field_eqb (a b : field) : bool :=
+  match a, b with
+  | FSync, FSync | FTs, FTs | FMeta, FMeta | FLat, FLat | FTree, FTree => true
+  | _, _ => false
+  end.
+Definition mutex_eqb (a b : mutex) : bool :=
+  match a, b with
+  | MuTs, MuTs | MuMeta, MuMeta | MuLat, MuLat | MuTree, MuTree => true
+  | _, _ => false
+  end.
+Definition thread_eqb (a b : thread) : bool :=
+  match a, b with Stream, Stream | Refresh, Refresh => true | _, _ => false end.
+
+Definition accesses : list access :=
+  [ (* t.sync *)
+    Acs FSync true Stream [] "gnmiUpdate: t.sync = tv.BoolVal (meta/sync written by Sync())";
+    Acs FSync false Stream [] "gnmiUpdate: if t.sync && realData / if t.sync";
+    Acs FSync true Refresh [] "generateMetaUpdates -> gnmiUpdate(meta/sync): t.sync = tv.BoolVal";
+    (* t.ts *)
+    Acs FTs true Stream [MuTs] "checkTimestamp (deferred in Target.GnmiUpdate)";
+    Acs FTs true Stream [MuTs] "resetTimestamp (Reset)";
+    Acs FTs false Stream [] "gnmiUpdate: t.ts.UnixNano() / nts.Sub(t.ts) in the future check";
+    Acs FTs false Refresh [MuTs] "updateMeta: latest := t.ts";
+    Acs FTs false Refresh [] "generateMetaUpdates -> gnmiUpdate: future check reads t.ts";
+    (* metadata values: every access goes through metadata.Metadata's methods *)
+    Acs FMeta true Stream [MuMeta] "meta.AddInt / SetBool / SetStr / ResetEntry / Clear";
+    Acs FMeta true Refresh [MuMeta] "meta.SetInt (latest, size, latency stats)";
+    Acs FMeta false Refresh [MuMeta] "meta.GetBool / GetInt / GetStr in generateMetaUpdates";
+    (* latency accumulators *)
+    Acs FLat true Stream [MuLat] "lat.Compute";
+    Acs FLat true Refresh [MuLat] "lat.UpdateReset";
+    (* the tree *)
+    Acs FTree true Stream [MuTree] "t.t.Add / Leaf.Update / WalkDeleted / Delete";
+    Acs FTree true Refresh [MuTree] "generateMetaUpdates -> gnmiUpdate: t.t.Add / Leaf.Update";
+    Acs FTree false Refresh [MuTree] "updateSize: t.t.Query; GetLeafValue" ].
+
+Definition share_lock (a b : access) : bool :=
+  existsb (fun m => existsb (mutex_eqb m) (ac_held b)) (ac_held a).
+
+(** two accesses conflict: same field, different goroutines, one is a write *)
+Definition conflict (a b : access) : bool :=
+  field_eqb (ac_field a) (ac_field b) && negb (thread_eqb (ac_thread a) (ac_thread b)) &&
+  (ac_write a || ac_write b).
+
+Definition no_unprotected_access (f : field) : bool :=
+  forallb (fun a => forallb (fun b =>
+    negb (field_eqb (ac_field a) f && conflict a b) || share_lock a b) accesses) accesses.
+
+Theorem lockset_meta_lat_tree :
+  no_unprotected_access FMeta = true /\ no_unprotected_access FLat = true /\
+  no_unprotected_access FTree = true.
+Proof. vm_compute. repeat split. Qed.
+
+(** FULL STATEMENT (false, known finding KF-C15-4 / DESIGN 7.13):
+      forall f, no_unprotected_access f = true. *)
+Theorem lockset_sync_ts_refuted :
+  no_unprotected_access FSync = false /\ no_unprotected_access FTs = false.
+Proof. vm_compute. split; reflexivity. Qed.
+
+(** * Examples *)
+
+Definition ex15_upd (leaf : string) (ts v : Z) : update * Z :=
+  (Upd (Some (gp_of_names [leaf])) (Some (TInt v)) 0, ts).
+
+Definition ex15_t1 : target :=
+  fst (fst (target_gnmi_update (new_target "t" ex15_cfg) 0
+    (Notif 5 (Some (gp_prefix "t" "" ["a"])) None [Upd (Some (gp_of_names ["b"])) (Some (TInt 1)) 0] [] false))).
+
+(** a multi notification on [ex15_t1]: one stale update, one new leaf, one delete *)
+Definition ex15_multi : notif :=
+  Notif 4 (Some (gp_prefix "t" "" ["a"])) None
+    [Upd (Some (gp_of_names ["b"])) (Some (TInt 2)) 0; Upd (Some (gp_of_names ["c"])) (Some (TInt 3)) 0]
+    [gp_of_names ["zz"]] false.
+
+Example ex_accounting_hyps :
+  let '(t', fd, r) := target_gnmi_update ex15_t1 0 ex15_multi in
+  r = GErrs [err_stale] /\ (forall w, r <> GPanic w) /\
+  Forall (no_counter_reset (n_prefix ex15_multi)) (n_del ex15_multi) /\
+  units ex15_multi = Some (3, 1) /\
+  D ex15_t1 t' md_update_count = 2 /\ D ex15_t1 t' md_stale_count = 1.
+Proof.
+  vm_compute. repeat split; try discriminate.
+  constructor; [|constructor]. unfold no_counter_reset. vm_compute. intros H; discriminate.
+Qed.
+
+(** * Soundness of the executable specification (C15Check.kp_window) *)
+From Gnmi Require Import Cache.C14Check Latency.LatencyModel Cache.C15Check.
+
+Lemma within_sound lo hi p v :
+  within lo hi p (Some v) = true ->
+  if Z.eqb p 0 then lo <= v <= hi else lo - p < v < hi + p.
+Proof.
+  unfold within. destruct (Z.eqb p 0); intros H; apply andb_true_iff in H; destruct H as [H1 H2].
+  - apply Z.leb_le in H1, H2. lia.
+  - apply Z.ltb_lt in H1, H2. lia.
+Qed.
+
+(** K_P(latency) = true on a written window means: the sample set is non-empty
+    unless nothing was written, max and min lie within [lo, hi] and the average
+    strictly within (lo - p, hi + p), for lo / hi the least / greatest sample *)
+Theorem kp_window_sound S p st :
+  p <> 0 -> kp_window S p (Some st) = true ->
+  match zmin_list S, zmax_list S with
+  | Some lo, Some hi =>
+      (forall v, ws_max st = Some v -> lo <= v <= hi) /\
+      (forall v, ws_min st = Some v -> lo <= v <= hi) /\
+      (forall v, ws_avg st = Some v -> lo - p < v < hi + p)
+  | _, _ => ws_avg st = None /\ ws_max st = None /\ ws_min st = None
+  end.
+Proof.
+  intros Hp. unfold kp_window. destruct (zmin_list S) as [lo|]; destruct (zmax_list S) as [hi|];
+    intros H; repeat (apply andb_true_iff in H; destruct H as [H ?]);
+    try (destruct (ws_avg st), (ws_max st), (ws_min st); cbn in *; try discriminate; auto; fail).
+  split; [|split]; intros x Hx; rewrite Hx in *.
+  - pose proof (within_sound _ _ 0 _ H) as Hs. cbn in Hs. lia.
+  - pose proof (within_sound _ _ 0 _ H1) as Hs. cbn in Hs. lia.
+  - pose proof (within_sound _ _ p _ H0) as Hs. destruct (Z.eqb_spec p 0); [contradiction|]. lia.
+Qed.
